@@ -18,13 +18,14 @@ from nucs.solvers.bound_consistency_algorithm import bound_consistency_algorithm
 from nucs.solvers.shaving_consistency_algorithm import shaving_consistency_algorithm
 
 X = STATS_MAX
-SLOTS = 15
+SLOTS = 16
 (S_PASSES, S_GROW, S_EMPTY, S_REEXEC, S_NOTFIX, S_KNOWN_AFFINE, S_TOP, S_REFAIL, S_SH_PASSES, S_SH_GROW, S_SH_EMPTY,
- S_SH_TOP, S_AFFINE_NOTQ, S_LIMIT, S_CUT) = range(SLOTS)
+ S_SH_TOP, S_AFFINE_NOTQ, S_LIMIT, S_CUT, S_AFFINE_REFAIL_NOTQ) = range(SLOTS)
 NAMES = ["bc_passes_monitored", "domain_grew", "empty_domain_after_consistent_pass", "reexecutions",
          "not_a_fixpoint", "not_a_fixpoint_affine_eq_still_queued", "stack_pointer_changed", "reexecution_fails",
          "shaving_calls_monitored", "shaving_domain_grew", "shaving_empty_domain", "shaving_stack_pointer_changed",
-         "not_a_fixpoint_affine_eq_not_queued", "pass_limit", "passes_cut_off"]
+         "not_a_fixpoint_affine_eq_not_queued", "pass_limit", "passes_cut_off",
+         "reexecution_fails_affine_eq_not_queued"]
 _AFFINE_EQ = ALG_AFFINE_EQ
 _NO_SUB_CYCLE = ALG_NO_SUB_CYCLE
 
@@ -59,6 +60,10 @@ def _after_pass(statistics, algorithms, var_bounds, param_bounds, props_dom_indi
                 # still queued at the end of a consistent pass = it ran last and was skipped by the 'previous' rule
                 if st == PROP_INCONSISTENCY or not np.array_equal(dom, ref):
                     statistics[X + S_KNOWN_AFFINE] += 1
+            elif st == PROP_INCONSISTENCY and algorithms[prop_idx] == _AFFINE_EQ:
+                # one more round of affine_eq reaches the infeasible point; not queued = the re-run owed by the skip-self rule
+                # was lost across a choice point, or a genuine missed wake-up: plane B cannot tell (plane A does)
+                statistics[X + S_AFFINE_REFAIL_NOTQ] += 1
             elif st == PROP_INCONSISTENCY:
                 statistics[X + S_REFAIL] += 1
             elif algorithms[prop_idx] == _AFFINE_EQ and not np.array_equal(dom, ref):
